@@ -23,7 +23,7 @@ from .codegen import (
 )
 from .error import InvalidTypes
 from .origin import NO_ORIGIN, Origin
-from .serialize import TYPE_KEY, DataClassSerializeMixin
+from .serialize import TYPE_KEY, DataClassSerializeMixin, SerializationOption
 from .types import get_cls_all_fields, get_cls_child_fields, get_cls_props
 from .typing import Field, FieldTypeInfo, check_annotations, is_instance
 
@@ -305,15 +305,20 @@ class ASTNode(DataClassSerializeMixin):
             out["_children"] = []
             out["_children"].extend([f.name for f in get_cls_child_fields(self.__class__)])
 
+            if self._get_serialization_options().get(SerializationOption.SORT_KEYS, False):
+                # Keep the type key first and the rest sorted, including the key just added
+                out = {k: out[k] for k in sorted(out, key=lambda k: (k != TYPE_KEY, k))}
+
         if (
             self._get_serialization_options().get(AST_SERIALIZE_DIALECT_KEY)
             == ASTSerializationDialects.AST_TEST
         ):
-            out.get("origin", {})["source"] = {
-                TYPE_KEY: "Source",
-                "source_uri": "",
-                "source_type": "",
-            }
+            # The replacement source follows the same options as any other object
+            test_source = {"source_type": "", "source_uri": ""}
+            if not self._get_serialization_options().get(SerializationOption.SKIP_CLASS, False):
+                test_source = {TYPE_KEY: "Source", **test_source}
+
+            out.get("origin", {})["source"] = test_source
 
         return out
 
